@@ -15,7 +15,8 @@
 //!           (pre = null: no injected map, program = post); steps / sources as in Engine/Decode.v
 //!   cfg   = [enabled, policy, max_checkpoints|null, auto_recover]
 //!           policy = ["barrier"] | ["every", n] | ["time", secs] | ["hybrid", barriers, secs]
-//!           (secs = 0 or >= 3600, anything in between would depend on the wall clock)
+//!           (secs = 0 or >= 3600 up to u64::MAX, anything in between would depend on the wall clock;
+//!           a number >= 2^62 - n, secs, max_checkpoints - is written [hi, lo] = hi * 2^32 + lo)
 //!   damage (applied after the run to the newest checkpoint file of that run's pipeline id)
 //!         = ["trunc", k] | ["set", bytes] | ["patch", offset, bytes] | ["xor", offset, mask]
 //! out = [digests, listing0, [[outcome, plain outcome, chain length, listing, suggested|null, default], ..]]
@@ -29,7 +30,14 @@
 //!                  this case; fields = ["ok", idx, node_type, total, exec_mode, parts] | ["bad"]
 //!                  (what the real load_checkpoint says)
 //!             ["raw", name, size]             every other file
-//! Every case is executed in a worker process (address space limited to 4 GiB): its death is the
+//! kind "mgr": in = [enabled, policy, max_checkpoints|null, ops]: ONE real CheckpointManager (over a real
+//! directory that exists) driven directly through its public entry points:
+//!   op = ["calls", total, [idx, ..]]  should_checkpoint(idx, false, total) and (idx, true, total) for each idx
+//!      | ["save", ts]                 save_checkpoint of a state with this timestamp (sets last_checkpoint_time)
+//!      | ["last", null | ["rel", d] | ["abs", d]]   the public field last_checkpoint_time = None |
+//!                                     Some(now + d seconds) | Some(UNIX_EPOCH + d seconds)   (d signed)
+//! out = ["ok", [per op: [bool, ..] | "ok" | "err" | null], [[file name, size], ..]]   (a panic: ["panic"])
+//! Every "hist" case is executed in a worker process (address space limited to 4 GiB): its death is the
 //! outcome ["abort"], no answer within 30 s is ["hang"].
 use ibv::engine::*;
 use ibv::{Emitter, SplitMix64, Tier, drive};
@@ -693,7 +701,7 @@ fn parse_mop(j: &Value) -> R<MOp> {
                 MOp::Last(LastSpec::Nothing)
             } else {
                 let l = a[1].as_array().filter(|l| l.len() == 2).ok_or("last")?;
-                let d = l[1].as_i64().filter(|d| d.unsigned_abs() <= 1 << 62).ok_or("last offset")?;
+                let d = l[1].as_i64().filter(|d| d.unsigned_abs() < 1 << 62).ok_or("last offset")?;
                 match l[0].as_str() {
                     Some("rel") => MOp::Last(LastSpec::Rel(d)),
                     Some("abs") => MOp::Last(LastSpec::Abs(d)),
@@ -1612,16 +1620,16 @@ fn generate(seed: u64, tier: Tier, em: &mut Emitter) {
         for s in &secs {
             for pol in [TimeInterval(*s), Hybrid { barriers: true, interval_secs: *s }, Hybrid { barriers: false, interval_secs: *s }] {
                 ci += 1;
-                let idxs = vec![0usize, 1 + ci % 9, usize::MAX];
+                let idxs = vec![ci % 9, [usize::MAX, 1 << 32, 0][ci % 3]];
                 let total = totals[ci % 4];
                 let mut lasts = vec![
                     LastSpec::Rel(0), LastSpec::Rel(-1), LastSpec::Rel(3600), LastSpec::Rel(1 << 40), LastSpec::Abs(0),
-                    LastSpec::Abs(-(1 << 62)), LastSpec::Abs(1 << 62), LastSpec::Rel(-1_000_000_000_000),
+                    LastSpec::Abs(-(1 << 61)), LastSpec::Abs(1 << 61), LastSpec::Rel(-1_000_000_000_000),
                 ];
-                if *s >= 3600 && *s - 700 <= 1 << 62 {
+                if *s >= 3600 && *s - 700 < 1 << 61 {
                     lasts.push(LastSpec::Rel(-((*s - 700) as i64)));
                 }
-                if *s <= (1 << 62) - 700 {
+                if *s < (1 << 61) - 700 {
                     lasts.push(LastSpec::Rel(-((*s + 700) as i64)));
                 }
                 let mut ops = vec![MOp::Calls(total, idxs.clone())];
@@ -1703,7 +1711,7 @@ fn generate(seed: u64, tier: Tier, em: &mut Emitter) {
                         2 => LastSpec::Rel(-1_000_000_000_000),
                         3 => LastSpec::Rel(1 << (12 + rng.below(50))),
                         4 => LastSpec::Abs(0),
-                        _ => LastSpec::Abs(if rng.chance(1, 2) { 1 << 62 } else { -(1 << 62) }),
+                        _ => LastSpec::Abs(if rng.chance(1, 2) { 1 << 61 } else { -(1 << 61) }),
                     })),
                     _ => {
                         let k = 1 + rng.below(5) as usize;
